@@ -5,6 +5,9 @@ the REAL BroadcastDiagonalOperator / DiagonalOperator / DiagonalInverseOperator 
 the corresponding term of Model/Diagonal.v.  The oracle is an independent NumPy implementation of the
 element formula of the property (explicit loops over multi-indices); it never looks at the model.
 
+Pytrees of several leaves of the SAME rank (stream h) carry `tree` (container) and `solo` (every leaf is also run
+alone: no state may be carried from one leaf to the next, the verdict and the results are decided leaf by leaf).
+
 The `dtype` stream (stored values of one dtype x leaves of other dtypes, mixed-dtype pytrees, both x64 modes)
 is ORACLE-ONLY: the Coq model computes in an exact ring and has no dtypes.  Its reference is the same explicit
 element formula evaluated with NumPy scalars of the JAX-promoted result dtype (closed table `promote`), compared
@@ -82,19 +85,37 @@ def axis_specs(nd, lo=-4, hi=4, scalar_hi=3):
     return list(range(lo, scalar_hi + 1)) + [list(t) for t in itertools.permutations(range(lo, hi + 1), nd)]
 
 
-def structure(ins):
+TREES = ('dict', 'list', 'tuple', 'nested')
+
+
+def box(leaves, tree=None):
+    """the pytree holding the leaves, in THIS flattening order (jax.tree.leaves: dict keys sorted, sequences in
+    order).  Default: the bare leaf, or a dict 'a', 'b', ... for several leaves."""
+    leaves = list(leaves)
+    if tree is None:
+        return leaves[0] if len(leaves) == 1 else {chr(97 + i): l for i, l in enumerate(leaves)}
+    if tree == 'dict':
+        return {chr(97 + i): l for i, l in enumerate(leaves)}
+    if tree == 'list':
+        return leaves
+    if tree == 'tuple':
+        return tuple(leaves)
+    if tree == 'nested':
+        return {'a': [leaves[0]], 'b': tuple(leaves[1:])}
+    raise ValueError(tree)
+
+
+def structure(ins, tree=None):
     jax, jnp, np, diagonal, ALO = fx()
-    key = ('st', tuple(map(tuple, ins)))
+    key = ('st', tuple(map(tuple, ins)), tree)
     if key not in _cache:
-        leaves = [jax.ShapeDtypeStruct(tuple(s), jnp.float32) for s in ins]
-        _cache[key] = leaves[0] if len(leaves) == 1 else {chr(97 + i): l for i, l in enumerate(leaves)}
+        _cache[key] = box([jax.ShapeDtypeStruct(tuple(s), jnp.float32) for s in ins], tree)
     return _cache[key]
 
 
-def tree_of(ins, xs):
+def tree_of(ins, xs, tree=None):
     jax, jnp, np, diagonal, ALO = fx()
-    leaves = [jnp.asarray(np.array(x, dtype=np.float32).reshape(tuple(s))) for s, x in zip(ins, xs)]
-    return leaves[0] if len(leaves) == 1 else {chr(97 + i): l for i, l in enumerate(leaves)}
+    return box([jnp.asarray(np.array(x, dtype=np.float32).reshape(tuple(s))) for s, x in zip(ins, xs)], tree)
 
 
 def exact(v):
@@ -145,11 +166,9 @@ def expand_axes(axes, nd):
     return list(axes)
 
 
-def ref_leaf(vs, dd, axes, sh, xd, strict):
-    """'illegal' (duplicated / incompatible axes, or a shape change for the strict class) or
-    (out_shape, data): out[I] = d[I[L + a_k] (0 on unit axes)] * x[I[L + j] (0 on unit axes)]."""
-    np = fx()[2]
-    nd = len(vs)
+def ref_shape(vs, axes, sh):
+    """'illegal' (duplicated / incompatible axes) or (ax, L, osh): the normalised axes, the number of axes added on
+    the left, and the NumPy broadcast of the values laid along the axes with the leaf"""
     r = len(sh)
     ax = [a if a >= 0 else r + a for a in axes]
     if len(set(ax)) != len(ax):
@@ -169,6 +188,25 @@ def ref_leaf(vs, dd, axes, sh, xd, strict):
             osh.append(b)
         else:
             return 'illegal'
+    return ax, L, osh
+
+
+def verdict(vs, axes, sh):
+    """what the property says of ONE leaf: 'S' legal for both classes (shape kept), 'B' legal for the broadcast
+    class only (the shape changes), 'X' illegal"""
+    rs = ref_shape(vs, axes, sh)
+    return 'X' if rs == 'illegal' else 'S' if rs[2] == list(sh) else 'B'
+
+
+def ref_leaf(vs, dd, axes, sh, xd, strict):
+    """'illegal' (duplicated / incompatible axes, or a shape change for the strict class) or
+    (out_shape, data): out[I] = d[I[L + a_k] (0 on unit axes)] * x[I[L + j] (0 on unit axes)]."""
+    np = fx()[2]
+    r = len(sh)
+    rs = ref_shape(vs, axes, sh)
+    if rs == 'illegal':
+        return 'illegal'
+    ax, L, osh = rs
     if strict and osh != list(sh):
         return 'illegal'
     d = np.array(dd, dtype=object).reshape(tuple(vs))
@@ -421,11 +459,14 @@ def ask(x64: bool, case: dict):
     return res['ok']
 
 
-# legal layouts of the dtype stream: (values shape, axis_destination, leaf shapes)
+# layouts of the dtype stream: (values shape, axis_destination, leaf shapes); legal except where said
 DT_BROADCAST = [([3], 0, [[3]]), ([3], 0, [[3, 2]]), ([2], -2, [[3]]), ([3], 1, [[2]]), ([2, 3], [1, 0], [[3, 2]]),
-                ([3], -1, [[3], [2, 3]]), ([2], 0, [[2], [2, 3]]), ([2], [-3], [[2, 2], [3]])]
+                ([3], -1, [[3], [2, 3]]), ([2], 0, [[2], [2, 3]]), ([2], [-3], [[2, 2], [3]]),
+                ([3], 0, [[3, 2], [1, 2]])]  # same rank, the second leaf changes shape
 DT_STRICT = [([3], 0, [[3]]), ([3], 0, [[3, 2]]), ([2, 3], [1, 0], [[3, 2]]), ([3], -1, [[2, 3]]),
-             ([3], -1, [[3], [2, 3]]), ([2], 0, [[2], [2, 3], [2, 1]]), ([2, 1], -1, [[2, 3], [3, 2, 2]])]
+             ([3], -1, [[3], [2, 3]]), ([2], 0, [[2], [2, 3], [2, 1]]), ([2, 1], -1, [[2, 3], [3, 2, 2]]),
+             ([3], -1, [[2, 3], [1, 3]]),  # same rank, both legal
+             ([3], 0, [[3, 2], [1, 2]])]   # same rank, ILLEGAL for the strict classes because of the LATER leaf
 
 
 # (None is a pytree *leaf* for furax.tree.is_leaf and has no .ndim: AttributeError, like a Python scalar -
@@ -453,6 +494,12 @@ class Check(PropertyCheck):
         'jax.tree.map / jax.tree.leaves act leaf by leaf in flattening order and keep the tree definition: a pytree '
         'is modelled by its list of leaves; furax.tree.is_leaf distinguishes an array from a container',
         'jax.eval_shape(self.mv, in_structure) yields the shapes of mv and raises what mv raises',
+        'same-rank pytree stream (cases with `solo`): compared with the model like every diag case (the model decides '
+        'every leaf on its own: ctor_decided_leaf_by_leaf, ctor_leaf_order_irrelevant, mv_decided_leaf_by_leaf); in '
+        'addition the harness runs the REAL constructor and op(x) on every leaf ALONE and demands, reference-free, that '
+        'the pytree is accepted iff every leaf alone is and that each leaf result equals the one-leaf result; the '
+        'containers dict / list / tuple / nested dict-of-sequences are flattened by jax.tree.leaves in the order the '
+        'harness lists the leaves (dict keys a, b, c sorted)',
         'floating point: the model computes in an exact ring (Z, Q); inputs are small integers / dyadic rationals '
         'so that float32 arithmetic is exact and both sides are compared exactly',
         'the `diagonal` argument is a JAX array or a non-leaf container (Python scalars, which have no .ndim, are '
@@ -477,7 +524,7 @@ class Check(PropertyCheck):
         rng = random.Random(self.seed * 7919 + (0 if quick else 1))
         cases = []
 
-        def add(vs, axes, ins, full=False, dd=None, xs=None, aslist=False):
+        def add(vs, axes, ins, full=False, dd=None, xs=None, aslist=False, tree=None, solo=False):
             c = {
                 'kind': 'diag',
                 'vs': list(vs),
@@ -490,6 +537,10 @@ class Check(PropertyCheck):
                 c['full'] = True
             if aslist:
                 c['aslist'] = True
+            if tree:
+                c['tree'] = tree
+            if solo:
+                c['solo'] = True
             cases.append(c)
 
         vshapes = all_shapes(2, min_rank=1)
@@ -570,6 +621,47 @@ class Check(PropertyCheck):
                               'ins': [sh], 'xs': [[str(Fraction(v, 1)) for v in [1, 2, -4, 8, 2, -2, 4, 1, 2, 4, 8, -1][: prod(sh)]]]})
         cases.append({'kind': 'inverse', 'vs': [3], 'dd': ['0', '2', '1/2'], 'axes': 0,
                       'ins': [[3], [3, 2]], 'xs': [['1', '2', '4'], ['1', '2', '4', '8', '-2', '-4']]})
+        # (h) leaves of the SAME rank and different shapes, in every order: for a specification (values shape, axes)
+        #     each leaf shape of rank r over {1,2,3} has a verdict of its own - S legal for both classes, B legal for
+        #     the broadcast class only (shape change), X illegal (`verdict`, from the NumPy broadcasting reference).
+        #     Every ordered pattern of 2 and of 3 verdicts (SB, BS, SSB, SBS, XSB, ...: the offending leaf first /
+        #     middle / last) gets a pytree of same-rank leaves drawn from those classes (distinct shapes where
+        #     possible); in a third of the triples the middle leaf has ANOTHER rank (rank seen before, not adjacent).
+        #     Containers dict / list / tuple / nested rotate.  Every case also runs each leaf ALONE (`solo`): the
+        #     verdict of the pytree is the conjunction of the verdicts of its leaves and every leaf result is the
+        #     one-leaf result.  Thorough: 40% of the patterns; quick: ~7% (mixed patterns S-before-B/X favoured).
+        pool_by_rank = {r: all_shapes(r, min_rank=r) for r in (1, 2, 3)}
+        nh = 0
+        for vs in tvs:
+            for axes in axis_specs(len(vs), lo=-3, hi=2, scalar_hi=2):
+                ex = expand_axes(axes, len(vs))
+                cats = {}
+                for r, shapes in pool_by_rank.items():
+                    cats[r] = {}
+                    for sh in shapes:
+                        cats[r].setdefault(verdict(vs, ex, sh), []).append(sh)
+                for r in (1, 2, 3):
+                    present = sorted(cats[r])
+                    for n in (2, 3):
+                        for pat in itertools.product(present, repeat=n):
+                            later_bad = any(pat[i] == 'S' and pat[j] != 'S' for i in range(n) for j in range(i + 1, n))
+                            pr = (0.14 if later_bad else 0.05) if quick else 0.4
+                            if r == 3:
+                                pr *= 0.5
+                            if rng.random() >= pr:
+                                continue
+                            ins = []
+                            for c in pat:
+                                cand = [sh for sh in cats[r][c] if sh not in ins] or cats[r][c]
+                                ins.append(rng.choice(cand))
+                            if n == 3 and rng.random() < 0.34:
+                                r2 = rng.choice([q for q in (1, 2, 3) if q != r])
+                                if pat[1] in cats[r2]:
+                                    ins[1] = rng.choice(cats[r2][pat[1]])
+                            if prod(vs) * max(prod(sh) for sh in ins) > 120:
+                                continue
+                            nh += 1
+                            add(vs, axes, ins, full=rng.random() < 0.03, tree=TREES[nh % len(TREES)], solo=True)
         # (g) dtype stream (oracle-only): every ordered pair (values dtype, leaf dtype) x both x64 modes x the three
         #     classes on single-leaf layouts (quick: 2 layouts per pair, rotating; thorough: all), and mixed-dtype
         #     pytrees (quick: 3 seeded leaf-dtype tuples per class x values dtype x mode; thorough: all tuples of
@@ -626,7 +718,13 @@ class Check(PropertyCheck):
             'rank x 8 value shapes x the same axis specifications; (c) malformed: repeated axes as written, the empty '
             'tuple, tuples shorter/longer than values.ndim, list-typed axis_destination; (d) rank-0 values, dict / '
             'list / tuple / None values; (e) seeded random: ranks <= 4, rank-3 values, axes in [-6,6]; (f) '
-            'DiagonalInverseOperator on values with zeros and dyadic rationals; (g) dtype stream, oracle-only: every '
+            'DiagonalInverseOperator on values with zeros and dyadic rationals; (h) pytrees (dict / list / tuple / nested) of '
+            '2-3 leaves of the SAME rank (1-3) and different shapes: per specification (8 value shapes x scalar axes in '
+            '[-3,2] and tuples over [-3,2]) every leaf shape has its own verdict S / B / X (legal for both classes / '
+            'broadcast only / illegal) and every ordered pattern of verdicts - offending leaf first, middle, last, after '
+            'a leaf of its rank was accepted, with a leaf of another rank in between - is drawn (quick ~7%, thorough '
+            '40% of the patterns), each also run leaf by leaf ALONE: pytree verdict = conjunction of the leaf verdicts, '
+            'leaf results = one-leaf results; (g) dtype stream, oracle-only: every '
             'ordered pair (values dtype, leaf dtype) over int32 / float16 / float32 / float64 / complex64 / complex128 x '
             'x64 on and off x {Broadcast, strict, inverse} on single-leaf layouts (left / right extension, permuted '
             'tuple) and mixed-dtype pytrees with leaves of different rank, with half-integers, non-zero imaginary parts, '
@@ -647,6 +745,9 @@ class Check(PropertyCheck):
                 continue
             k = f"{c['kind']}/v{len(c['vs'])}/{'int' if isinstance(a, int) else 'tuple' + str(len(a))}/rank" + ','.join(
                 str(len(s)) for s in c['ins'])
+            if c.get('solo'):
+                k = f"diag/same-rank-pytree/{c['tree']}/{len(c['ins'])} leaves"
+
             if 'vtree' in c:
                 k = 'diag/vtree'
             d[k] = d.get(k, 0) + 1
@@ -676,19 +777,28 @@ class Check(PropertyCheck):
         if case['kind'] == 'dtype':
             return dtype_impl(case) if x64_mode() == bool(case['x64']) else ask(bool(case['x64']), case)
         ins = case['ins']
-        st = structure(ins)
+        tree = case.get('tree')
+        st = structure(ins, tree)
         d = self.values_of(case)
         axes = axarg(case['axes'])
         if case.get('aslist'):
             axes = list(axes)
         if case['kind'] == 'inverse':
             return self.run_inverse(case, d, axes, st)
-        x = tree_of(ins, case['xs'])
+        x = tree_of(ins, case['xs'], tree)
         res = []
         for cls in (diagonal.BroadcastDiagonalOperator, diagonal.DiagonalOperator):
             op = attempt(lambda: cls(d, axis_destination=axes, in_structure=st))
+            solo = None
+            if case.get('solo'):
+                # every leaf ALONE (bare leaf as the structure): construction outcome and result
+                def alone(sh, xd):
+                    o1 = cls(d, axis_destination=axes, in_structure=structure([sh]))
+                    return datas_of(o1(tree_of([sh], [xd])))[0]
+
+                solo = [show(attempt(lambda: alone(sh, xd))) for sh, xd in zip(ins, case['xs'])]
             if op[0] == 'err':
-                res.append({'error': op[1]})
+                res.append({'error': op[1], 'solo': solo} if solo is not None else {'error': op[1]})
                 continue
             op = op[1]
             strict = cls is diagonal.DiagonalOperator
@@ -715,7 +825,7 @@ class Check(PropertyCheck):
                 # dense form against the generic column-by-column construction
                 def more():
                     again = datas_of(op(x))
-                    other = cls(self.values_of(case), axis_destination=axes, in_structure=structure(ins))
+                    other = cls(self.values_of(case), axis_destination=axes, in_structure=structure(ins, tree))
                     fresh = datas_of(jax.jit(lambda t: other.mv(t))(x))
                     gen = None
                     if strict:
@@ -723,6 +833,8 @@ class Check(PropertyCheck):
                     return {'again': again == o[2], 'fresh_jit': fresh == o[2], 'generic_as_matrix': gen}
 
                 extra = show(attempt(more))
+            if solo is not None:
+                extra = dict(extra or {}, solo=solo)
             o.append(extra)
             res.append(o)
         return res
@@ -760,7 +872,8 @@ class Check(PropertyCheck):
         if case['kind'] == 'inverse':
             return obs[1:5] if isinstance(obs, list) else obs
         if isinstance(obs, list):
-            return [o[:4] if isinstance(o, list) else o for o in obs]
+            return [o[:4] if isinstance(o, list) else {'error': o['error']} if isinstance(o, dict) and 'error' in o else o
+                    for o in obs]
         return obs
 
     # ------------------------------------------------------------------------------------------
@@ -819,7 +932,9 @@ class Check(PropertyCheck):
             ref = [ref_leaf(vs, dd, axes, sh, x, strict) for sh, x in zip(ins, xs)]
             if 'illegal' in ref:
                 if not isinstance(o, dict):
-                    return f'{nm} accepted an illegal specification ({what}): leaf results {ref}'
+                    bad = [i for i, e in enumerate(ref) if e == 'illegal']
+                    return (f'{nm} accepted a specification that is illegal for leaf/leaves {bad} of the pytree ({what}): '
+                            f'out_structure {o[1]}, leaf results by NumPy broadcasting {ref}')
                 continue
             if isinstance(o, dict):
                 return f'{nm} rejected a legal specification with {o} ({what}); expected out shapes {[e[0] for e in ref]}'
@@ -837,10 +952,26 @@ class Check(PropertyCheck):
             if isinstance(extra, dict):
                 if 'error' in extra:
                     return f'{nm}: repeated evaluation raised {extra} ({what})'
-                if not extra['again'] or not extra['fresh_jit']:
+                if 'again' in extra and (not extra['again'] or not extra['fresh_jit']):
                     return f'{nm}: result depends on something else than values, axes and input: {extra} ({what})'
-                if extra['generic_as_matrix'] is False:
+                if extra.get('generic_as_matrix') is False:
                     return f'{nm}: as_matrix() differs from the generic column-by-column dense form ({what})'
+        # no state carried from leaf to leaf, reference-free: the pytree is accepted iff every leaf ALONE is, and each
+        # leaf of the result is the result of the one-leaf call ("depends on nothing but values, axes and input")
+        for nm, o in zip(names, obs):
+            solo = o.get('solo') if isinstance(o, dict) else (o[4] or {}).get('solo') if isinstance(o[4], dict) else None
+            if solo is None:
+                continue
+            alone_bad = [i for i, e in enumerate(solo) if isinstance(e, dict)]
+            if isinstance(o, dict):
+                if not alone_bad:
+                    return f'{nm} rejected the pytree with {o["error"]} although it accepts every leaf alone ({what})'
+                continue
+            if alone_bad:
+                return (f'{nm} accepted the pytree although it rejects leaf/leaves {alone_bad} alone '
+                        f'({[solo[i] for i in alone_bad]}): the verdict depends on the other leaves / their order ({what})')
+            if isinstance(o[2], list) and o[2] != solo:
+                return f'{nm}: op(x) = {o[2]} on the pytree, but leaf by leaf alone {solo}: a leaf result depends on the other leaves ({what})'
         return None
 
     def oracle_inverse(self, case, obs):
